@@ -199,10 +199,71 @@ def bubble_case(rng, hist):
                 bubble=True, input="\n".join(lines + pl + ["END"]) + "\n")
 
 
+KIJ_SETS = [["CO2(g)", "CH4(g)"], ["CO2(g)", "N2(g)"], ["CH4(g)", "N2(g)"], ["H2S(g)", "CO2(g)"], ["CO2(g)", "Mtg(g)"],
+            ["Mtg(g)", "Ntg(g)"], ["CO2(g)", "CH4(g)", "H2O(g)"], ["CO2(g)", "H2O(g)"], ["N2(g)", "H2O(g)", "CO2(g)"],
+            ["H2Sg(g)", "Mtg(g)", "CO2(g)"], ["CH4(g)", "H2O(g)"], ["O2(g)", "N2(g)"]]
+
+
+def kij_block(rng, gases, hist):
+    """GAS_BINARY_PARAMETERS lines for pairs of `gases`: pairs without H2O(g) and overrides of the built-in H2O(g)-X values,
+    either name order, sometimes a pair given twice (the later line counts)"""
+    pairs = [(a, b) for i, a in enumerate(gases) for b in gases[i + 1:]]
+    rng.shuffle(pairs)
+    lines = ["GAS_BINARY_PARAMETERS"]
+    for (a, b) in pairs[:rng.randint(1, max(1, len(pairs)))]:
+        if rng.random() < 0.5:
+            a, b = b, a
+        k = rng.choice([0.1, 0.15, 0.25, 0.3, -0.1, round(rng.uniform(0.05, 0.45), 3)])
+        lines.append(f" {a} {b} {k}")
+        hist["kij_pair_with_H2O" if "H2O(g)" in (a, b) else "kij_pair_without_H2O"] = \
+            hist.get("kij_pair_with_H2O" if "H2O(g)" in (a, b) else "kij_pair_without_H2O", 0) + 1
+        if rng.random() < 0.1:
+            lines.append(f" {b} {a} {round(rng.uniform(0.05, 0.45), 3)}")
+    return lines
+
+
+def kij_case(rng, hist):
+    """Peng-Robinson phase holding both gases of user-defined binary pairs at tens to hundreds of atm (fixed P / fixed V),
+    or those gases as EQUILIBRIUM_PHASES"""
+    gases = list(rng.choice(KIJ_SETS))
+    tc = rng.uniform(20, 150)
+    ptot = float(f"{10 ** rng.uniform(1.2, 2.6):.6g}")
+    kind = rng.choice(["fixedV", "fixedV", "fixedP", "fixedP", "pp"])
+    lines = kij_block(rng, gases, hist) + ["SOLUTION 1", f" temp {tc:.4f}", " pH 6", " units mol/kgw",
+                                           f" Na {rng.choice([0.01, 0.1, 0.5])}", " Cl 0.1 charge"]
+    case = dict(kind=kind, db="phreeqc.dat", gases=gases, tc=tc, own_kij=True)
+    extra = []
+    if kind == "pp":
+        lines.append("EQUILIBRIUM_PHASES 1")
+        sis = [float(f"{rng.uniform(0.8, 2.4):.4f}") for _ in gases]
+        for g, si in zip(gases, sis):
+            lines.append(f" {g} {si:.4f} {rng.choice([10.0, 1.0])}")
+            extra.append((f"eq{gases.index(g)}", f'EQUI("{g}")'))
+        case["si_target"] = sis
+    else:
+        fr = [rng.uniform(0.15, 1.0) for _ in gases]
+        if "H2O(g)" in gases:
+            fr[gases.index("H2O(g)")] = 0.0
+        parts = [float(f"{f / sum(fr) * ptot:.6g}") for f in fr]
+        vol = rng.choice([1.0, 0.5, 2.0])
+        lines += ["GAS_PHASE 1", " -fixed_pressure" if kind == "fixedP" else " -fixed_volume"]
+        if kind == "fixedP":
+            lines.append(f" -pressure {ptot:.6g}")
+        lines += [f" -volume {vol}", f" -temperature {tc:.4f}"] + [f" {g} {p:.6g}" for g, p in zip(gases, parts)]
+        case.update(vol=vol, ptot=ptot, p_init=parts)
+    pl, heads = punch_block(gases, extra)
+    case["heads"] = heads
+    case["input"] = "\n".join(lines + pl + ["END"]) + "\n"
+    hist["own_kij_" + kind] = hist.get("own_kij_" + kind, 0) + 1
+    return case
+
+
 def real_case(rng, hist):
     """one real input: dict(kind, db, gases, input, meta...)"""
     if rng.random() < 0.12:
         return bubble_case(rng, hist)
+    if rng.random() < 0.2:
+        return kij_case(rng, hist)
     u = rng.random()
     if u < 0.30:
         kind = "fixedV"
